@@ -88,3 +88,10 @@ CASES += [
     {"name": "step accumulated through a scaled copy", "kind": "twin", "edits": [
         (_PP, "            pops[indx,:] = rho2                        \n", "            pops[indx,:] = 1.0*rho2\n", 1)]},
 ]
+
+CASES += [
+    {"name": "set_data keeps the caller's array (the repaired defect)", "kind": "mutant", "rule": "C17-A", "edits": [
+        ("quantarhei/qm/liouvillespace/rates/ratematrix.py", "        self.data = numpy.array(data, dtype=numpy.float64)\n\n\n    def set_rate", "        self.data = data\n\n\n    def set_rate", 1)]},
+    {"name": "set_data converts without a copy", "kind": "mutant", "rule": "C17-A", "edits": [
+        ("quantarhei/qm/liouvillespace/rates/ratematrix.py", "        self.data = numpy.array(data, dtype=numpy.float64)\n\n\n    def set_rate", "        self.data = numpy.array(data, dtype=numpy.float64, copy=False)\n\n\n    def set_rate", 1)]},
+]
